@@ -142,7 +142,9 @@ def rixObs (readAll : Bool) (packs files : String) (dryFirst : Bool := false) : 
         -- `rixd`: `repair_index(opts, dry_run = true)` first (the index files as they are afterwards), then the real run on that
         let r1 := Rustic.Index.repairIndexD true readHeader store fs readAll
         let r2 := Rustic.Index.repairIndexD false readHeader store r1 readAll
-        s!"ok {obsOf r1} / {obsOf r2}"
+        -- `chk`: does `to_indexed_checked` (model `checkedPacks`) succeed on the damaged store?
+        let chk := if (Rustic.Index.checkedPacks readHeader store fs).isSome then "ok" else "err"
+        s!"ok chk={chk} {obsOf r1} / {obsOf r2}"
       else
         s!"ok {obsOf (Rustic.Index.repairIndex readHeader store fs readAll)}"
 
